@@ -21,6 +21,13 @@ let run_ts (toks : string list) : string =
   | [ "parse" ] -> show_outcome h (Model.parse (coq_string_of_bytes ""))
   | [ "lparse"; s ] -> show_outcome h (Model.legacy_parse (coq_string_of_bytes (bytes_of_hexstr s)))
   | [ "lparse" ] -> show_outcome h (Model.legacy_parse (coq_string_of_bytes ""))
+  | "row" :: rest ->
+    (* a stored row whose stamp column holds this text (hx-rows, SQLite): readable exactly when the
+       text parses; otherwise an error on every read path, and the storage keeps serving *)
+    let text = match rest with [ s ] -> bytes_of_hexstr s | _ -> "" in
+    (match Model.parse (coq_string_of_bytes text) with
+     | Model.Ok t -> "get=ok:" ^ h t ^ " meta=ok:" ^ h t ^ " alive=1"
+     | _ -> "get=err meta=err alive=1")
   | [ "cmp"; a; b ] -> show_bool (Model.N.ltb (n a) (n b))
   | [ "le8"; t ] -> String.concat " " (List.map h (Model.to_le8 (n t)))
   | [ "ofle8"; b0; b1; b2; b3; b4; b5; b6; b7 ] ->
@@ -539,6 +546,7 @@ let () =
     | "clock" -> run_clock
     | "actor-legacy-d2" -> run_actor_gen false false
     | "transfer" -> run_transfer
+    | "rows" -> run_ts
     (* hx-restart: "<backend> act ..." - the actor model, whatever the backend *)
     | "restart" -> (fun toks -> match toks with _ :: rest -> run_actor_gen false true rest | [] -> "?bad-case")
     | _ -> prerr_endline ("unknown component " ^ comp); exit 2
